@@ -17,6 +17,7 @@ from pandapipes.pf.pipeflow_setup import (
     check_infeed_number, PipeflowNotConverged
 )
 from pandapipes.pf.result_extraction import extract_all_results, extract_results_active_pit
+from pandapipes import _verif
 
 try:
     import pandaplan.core.pplog as logging
@@ -98,6 +99,10 @@ def pipeflow(net, sol_vec=None, **kwargs):
     extract_all_results(net, calculation_mode)
 
 
+if _verif.ENABLED:
+    pipeflow = _verif.wrap_pipeflow(pipeflow)
+
+
 def use_given_hydraulic_results(net, sol_vec):
     node_pit = net["_pit"]["node"]
     branch_pit = net["_pit"]["branch"]
@@ -136,6 +141,8 @@ def newton_raphson(net, funct, mode, solver_vars, tols, pit_names, iter_name):
     while not net.converged and niter < max_iter:
         logger.debug("niter %d" % niter)
 
+        if _verif.ENABLED:
+            _verif_alpha_used = get_net_option(net, "alpha")
         # solve_hydraulics is where the calculation takes place
         results, residual, filtered = funct(net)
         residual_norm = np.max(np.abs(residual))
@@ -151,7 +158,17 @@ def newton_raphson(net, funct, mode, solver_vars, tols, pit_names, iter_name):
             net, niter, residual_norm, nonlinear_method, errors=errors, tols=tols, tol_res=tol_res,
             vals_old=vals_old, solver_vars=solver_vars, pit_names=pit_names, filtered=filtered
         )
+        if _verif.ENABLED:
+            _verif.emit("nr_iter", net=net, mode=mode, niter=niter, alpha_used=_verif_alpha_used,
+                        alpha_after=get_net_option(net, "alpha"),
+                        errors={var: errors[var][niter] for var in solver_vars},
+                        tols=dict(zip(solver_vars, tols)), residual_norm=residual_norm,
+                        tol_res=tol_res, nonlinear_method=nonlinear_method, max_iter=max_iter,
+                        converged=net.converged)
         niter += 1
+    if _verif.ENABLED:
+        _verif.emit("nr_end", net=net, mode=mode, niter=niter, max_iter=max_iter,
+                    converged=net.converged)
     write_internal_results(net, **errors)
     kwargs = dict()
     kwargs['residual_norm_%s' % mode] = residual_norm
